@@ -44,6 +44,12 @@ func VerifH_serveHTTP_status() {
 		}))
 	}
 	mux, srv, rec := vfMuxWith(vfHTTPRule("GET", "/aa/{f}"), in, out, opts...)
+	replyBytes := []byte("REPLY")
+	if vfBool() {
+		replyBytes = nil // a reply that encodes to zero bytes (shorter than any frame header)
+		srv.reply.payload = nil
+		vfCover("empty-reply")
+	}
 	fail := vfBool()
 	twirp := fail && vfBool()
 	var code codes.Code
@@ -85,7 +91,7 @@ func VerifH_serveHTTP_status() {
 	}
 	ct := w.sentHeader["Content-Type"]
 	if !fail {
-		vfCheck(w.status == 200 && vfBytesEq(w.body, []byte("REPLY")), "successful call not answered 200 with the marshalled reply")
+		vfCheck(w.status == 200 && vfBytesEq(w.body, replyBytes), "successful call not answered 200 with the marshalled reply")
 		vfCheck(len(ct) == 1 && ct[0] == "application/x", "reply not labelled with the negotiated content type")
 		vfCover("ok")
 	} else {
@@ -126,7 +132,7 @@ func VerifH_serveHTTP_status() {
 			vfCheck(len(st.outLen) == 0, "out-payload stats event although no reply was sent")
 		} else {
 			vfCheck(st.endErr == nil, "End stats event carries an error for a successful call")
-			vfCheck(len(st.outLen) == 1 && st.outLen[0] == 5, "out-payload stats event missing or with a wrong length")
+			vfCheck(len(st.outLen) == 1 && st.outLen[0] == len(replyBytes), "out-payload stats event missing or with a wrong length")
 		}
 		vfCover("stats")
 	}
